@@ -171,7 +171,8 @@ class Search:
                 heap = sorted((q.alias.lower(), round(q.when_millis - now, 3), round(q.expire_time_millis - now, 3),
                                q.cancelled) for q in qs._query_heap)
                 nxt = None if qs._next_run is None else round(qs._next_run.when() * 1000 - now, 3)
-                states.append((key, sorted(live), heap, sorted((a.lower(), round(q.when_millis - now, 3))
+                # (the schedule's key is whatever the library uses - a name, or a (type, instance) pair since 02c9dfc)
+                states.append((key, sorted(live), heap, sorted((repr(a).lower(), round(q.when_millis - now, 3))
                                                                for a, q in qs._next_scheduled_for_alias.items()),
                                qs._startup_queries_sent, nxt, sorted(b._pending_handlers.items(), key=repr)))
             for log in finished:
